@@ -190,6 +190,15 @@ pub mod time {
     pub struct SystemTimeError { d: u8 }
     #[verifier::external]
     impl ::std::fmt::Debug for SystemTimeError { fn fmt(&self, f: &mut ::std::fmt::Formatter<'_>) -> ::std::fmt::Result { Ok(()) } }
+    /// monotonic clock (values unconstrained)
+    #[verifier::external_body]
+    pub struct Instant { t: u8 }
+    impl Instant {
+        #[verifier::external_body]
+        pub fn now() -> (r: Instant) { unimplemented!() }
+        #[verifier::external_body]
+        pub fn elapsed(&self) -> (r: Duration) { unimplemented!() }
+    }
     impl SystemTime {
         #[verifier::external_body]
         /// ASSUMED: the wall clock is not before 1970 (otherwise `now()` in index.rs panics)
